@@ -401,6 +401,7 @@ class SymdelDB:
 
 
     def __init__(self, seqs, max_edits):
+        seqs = ensure_numpy(seqs)
         self.seqs = seqs
         self.max_edits = max_edits
         self.variant_dict = {}
@@ -440,6 +441,7 @@ class SymdelDB:
         """
 
         ans = []
+        seqs2 = ensure_numpy(seqs2)
         threshold = max_custom_distance
         if custom_distance in (None, 'hamming') or max_custom_distance == float('inf'):
             threshold = self.max_edits
@@ -525,6 +527,7 @@ def symdel(seqs, max_edits=1, max_returns=None, n_cpu=1,
         output_type,
         seqs2
     )
+    seqs = ensure_numpy(seqs)
     symdeldb = SymdelDB(seqs, max_edits)
 
     if seqs2 is None:
